@@ -23,8 +23,11 @@ type finding struct {
 
 // stats collects monitor-event counters and the features a case reached.
 type stats struct {
-	counts map[string]int
-	feats  map[string]bool
+	counts       map[string]int
+	feats        map[string]bool
+	checks       int
+	resolved     map[int][]byte // op index -> key a Pick resolved to (for witness minimisation)
+	resolvedView map[int]int
 }
 
 func newStats() *stats { return &stats{counts: map[string]int{}, feats: map[string]bool{}} }
@@ -104,10 +107,11 @@ type listCheck struct {
 	limit      int
 	rev        bool
 	keysOnly   bool
-	exp        []kvmodel.KV // model answer
-	full       []kvmodel.KV // model answer without limit (same direction)
+	exp        []kvmodel.KV                // model answer
+	full       []kvmodel.KV                // model answer without limit (same direction)
 	classify   func(viewKey []byte) string // for a key not in full: outside | staged-deleted | nonexistent
-	delsInScan bool                        // a database key inside the scanned region is staged-deleted
+	delsInScan bool                        // a database key inside the bounds / under the prefix is staged-deleted
+	stagedDels bool                        // some database key is staged-deleted
 }
 
 // compareList returns "" if got is exactly the model answer, else a symptom built from
@@ -122,19 +126,14 @@ func compareList(c *listCheck, got []kvmodel.KV) string {
 			continue
 		}
 		switch c.classify(kv.Key) {
-		case "outside":
-			if !c.isRange {
-				return "returns-key-outside-prefix"
-			}
-			if len(kv.Key) > len(c.end) && bytes.HasPrefix(kv.Key, c.end) {
-				return "returns-key-beyond-end:key-extends-end"
-			}
-			return "returns-key-outside-bounds"
 		case "staged-deleted":
 			return "returns-staged-deleted-key"
-		default:
-			return "returns-nonexistent-key"
+		case "outside":
+			if c.isRange && len(kv.Key) > len(c.end) && bytes.HasPrefix(kv.Key, c.end) {
+				return "returns-key-beyond-end:key-extends-end"
+			}
 		}
+		return "returns-key-not-in-scan" // exists elsewhere (outside the bounds/prefix, another view) or nowhere
 	}
 	for i := 1; i < len(got); i++ {
 		cmp := bytes.Compare(got[i-1].Key, got[i].Key)
@@ -146,14 +145,14 @@ func compareList(c *listCheck, got []kvmodel.KV) string {
 		switch {
 		case c.isRange && c.rev && allFF(c.fullEnd):
 			return ":reverse-and-end-is-all-0xff-or-empty"
-		case c.limit >= 0 && c.delsInScan:
-			return ":limit-and-staged-deletes-in-scan"
+		case c.limit >= 0 && c.stagedDels:
+			return ":limit-and-staged-deletes"
 		}
 		return ""
 	}
 	switch {
 	case len(got) < len(c.exp):
-		return "missing-keys" + tag()
+		return "missing-or-skipped-keys" + tag()
 	case len(got) > len(c.exp):
 		if c.limit == 0 {
 			return "too-many-keys:limit0"
@@ -162,7 +161,7 @@ func compareList(c *listCheck, got []kvmodel.KV) string {
 	}
 	for i := range got {
 		if !bytes.Equal(got[i].Key, c.exp[i].Key) {
-			return "not-the-first-keys" + tag()
+			return "missing-or-skipped-keys" + tag()
 		}
 	}
 	if !c.keysOnly {
